@@ -105,7 +105,7 @@ CHECKS = {
         engine="gridmc+seqmc",
         technique="exhaustive enumeration of unit matrices and polarisation sets for the congruence; breadth-first search over the group generated by Givens rotations, reflections and transpositions with cumulative application of rotate_orbs, invariants evaluated in every state and re-reached states compared",
         text="rotate_orbs is linear in (h1, chol) and quadratic in C: every X = E_ij in every slot and every C in {E_ab, E_ab+E_cd, dense invertible} decides C^T X C exactly (non-symmetric X and non-orthogonal C included); covariance by BFS over words of 15 generators to depth 3 (4 thorough), rotate_orbs applied cumulatively to the already rotated Hamiltonian (non-initial states), energies / force biases equal to the initial state's and overlap ratio 1 for rhf, uhf, ghf, noci trials in every state, states reached by different words compared.",
-        note="norb <= 3 (4 thorough); multi-Slater and CI kinds are tied to their orbital basis and outside the quantifier. Call histories: several matrices applied to the same source dictionary and chained, input dictionary bitwise unchanged.",
+        note="norb <= 3 (4 thorough); multi-Slater and CI kinds are tied to their orbital basis and outside the quantifier. Call histories: several matrices applied to the same source dictionary and chained, input dictionary bitwise unchanged. Length of the Cholesky list: every count 1..280 (1..520 thorough) contiguously, each vector judged on its own (since seeded round 5).",
         design="2/C15"),
     "C07": dict(
         engine="probmc+schedmc",
